@@ -78,13 +78,27 @@ func init() {
 				b := corrupt(ids(l[:1]))
 				do("ovE", a[0], b[0])
 			case 6:
-				do("ovEA", join(corrupt(ids(l))), join(corrupt(ids(l))))
+				la, lb := corrupt(ids(l)), corrupt(ids(l))
+				switch rng.Intn(8) { // an empty list on either side: the other side must still be validated
+				case 0:
+					la = []string{}
+				case 1:
+					lb = []string{}
+				}
+				do("ovEA", join(la), join(lb))
 			case 7:
 				a := corrupt(spids(spl[:1]))
 				b := corrupt(spids(spl[:1]))
 				do("ovS", a[0], b[0])
 			case 8:
-				do("ovSA", join(corrupt(spids(spl))), join(corrupt(spids(spl))))
+				la, lb := corrupt(spids(spl)), corrupt(spids(spl))
+				switch rng.Intn(8) {
+				case 0:
+					la = []string{}
+				case 1:
+					lb = []string{}
+				}
+				do("ovSA", join(la), join(lb))
 			case 9:
 				do("sp2ext", join(corrupt(spids(spl))))
 			case 10:
